@@ -142,6 +142,11 @@ func lazySection(w *vhlib.Writer, o vhlib.Opts, rng *vhlib.Rng, rounds int) {
 			c.Busy = rng.Range(1, 3)
 		}
 		variant := lockFreeVariants[i%len(lockFreeVariants)]
+		if i%2 == 0 {
+			setHooks(perturbHook)
+		} else {
+			setHooks(nil)
+		}
 		runtime.GOMAXPROCS(c.Procs)
 		stop := startBusy(c.Busy)
 		type result struct {
@@ -211,6 +216,7 @@ func lazySection(w *vhlib.Writer, o vhlib.Opts, rng *vhlib.Rng, rounds int) {
 				[]string{"LoadOrStoreLazy constructor calls per call (<= 1, = 1 iff stored)"}, replay)
 		}
 	}
+	setHooks(nil)
 	w.Notes["lazy_rounds"] = rounds
 	w.Notes["lazy_calls_total"] = total
 	w.Notes["lazy_calls_stored"] = stored
